@@ -6,6 +6,7 @@ import (
 	"bytes"
 	"fmt"
 	"sync"
+	"sync/atomic"
 )
 
 type EnumRes struct {
@@ -39,14 +40,16 @@ type page struct {
 // enumerate runs one page-by-page enumeration.  between (may be nil) is
 // called after every page and may mutate the directory; it returns the names
 // it added and removed.
-func (e *enumSess) enumerate(dfh []byte, plus bool, count, dircount uint32, startCookie uint64, slots int, between func(pageNo int)) ([]Ent, bool) {
+func (e *enumSess) enumerate(dfh []byte, plus bool, count, dircount uint32, startCookie uint64, slotsNow func() int, between func(pageNo int)) ([]Ent, bool) {
 	api := e.s.srv.API
 	var all []Ent
 	cookie := startCookie
-	limit := slots + 3
+	trace := ""
 	for pg := 0; ; pg++ {
-		if pg > limit {
-			e.viol("enumeration (plus=%v count=%d dircount=%d) needs more than %d calls for a directory of %d slots", plus, count, dircount, limit, slots)
+		// every call returns at least one entry beyond the cookie or eof, so
+		// an enumeration takes at most (slots that ever existed) + 3 calls
+		if limit := slotsNow() + 3; pg > limit {
+			e.viol("enumeration (plus=%v count=%d dircount=%d) needs more than %d calls for a directory of %d slots; pages (cookie->names): %s", plus, count, dircount, limit, limit-3, trace)
 			return all, false
 		}
 		k := OpReaddir
@@ -70,6 +73,7 @@ func (e *enumSess) enumerate(dfh []byte, plus bool, count, dircount uint32, star
 			}
 		}
 		all = append(all, r.Ents...)
+		trace += fmt.Sprintf("%d->%v ", cookie, names(r.Ents))
 		if len(r.Ents) > 0 {
 			cookie = r.Ents[len(r.Ents)-1].Cookie
 		}
@@ -296,7 +300,7 @@ func runEnum(seed uint64, cas int, tier string) *EnumRes {
 	var ref []Ent
 	for _, l := range lims {
 		what := fmt.Sprintf("shape=%s plus=%v count=%d dircount=%d", shape, l.plus, l.cnt, l.dcnt)
-		ents, ok := e.enumerate(dfh, l.plus, l.cnt, l.dcnt, 0, slots, nil)
+		ents, ok := e.enumerate(dfh, l.plus, l.cnt, l.dcnt, 0, func() int { return slots }, nil)
 		res.Enums++
 		res.Combos[fmt.Sprintf("%s/%v/%s/%s", shape, l.plus, limClass(l.cnt), limClass(l.dcnt))] = true
 		if !ok {
@@ -324,7 +328,7 @@ func runEnum(seed uint64, cas int, tier string) *EnumRes {
 				continue
 			}
 			for _, plus := range []bool{false, true} {
-				got, ok := e.enumerate(dfh, plus, 4096, 4096, en.Cookie, slots, nil)
+				got, ok := e.enumerate(dfh, plus, 4096, 4096, en.Cookie, func() int { return slots }, nil)
 				res.Enums++
 				res.Resumes++
 				if !ok {
@@ -383,7 +387,8 @@ func runEnum(seed uint64, cas int, tier string) *EnumRes {
 			plus := rep%2 == 1
 			cnt := []uint32{1, 100, 200, 300, 400, 512}[rng.Intn(6)]
 			dc := []uint32{1, 40, 100, 4096}[rng.Intn(4)]
-			ents, ok := e.enumerate(dfh, plus, cnt, dc, 0, slots+20, between)
+			base := e.dirSlots(dfh, slots)
+			ents, ok := e.enumerate(dfh, plus, cnt, dc, 0, func() int { return base + nm }, between)
 			res.Enums++
 			if nm > 0 {
 				res.Mutated++
@@ -396,6 +401,7 @@ func runEnum(seed uint64, cas int, tier string) *EnumRes {
 	// 4. concurrent variant: a mutator works on its own names during the calls
 	if len(res.Viol) == 0 && (tier == "thorough" || cas%3 == 0) {
 		stop := make(chan struct{})
+		var created int64
 		var wg sync.WaitGroup
 		wg.Add(1)
 		go func() {
@@ -407,6 +413,7 @@ func runEnum(seed uint64, cas int, tier string) *EnumRes {
 				default:
 				}
 				n := fmt.Sprintf("conc%d", i%9)
+				atomic.AddInt64(&created, 1)
 				doOp(srv.API, &Op{K: OpCreate, H: dfh, Name: n})
 				doOp(srv.API, &Op{K: OpRemove, H: dfh, Name: n})
 			}
@@ -417,7 +424,8 @@ func runEnum(seed uint64, cas int, tier string) *EnumRes {
 		}
 		for rep := 0; rep < 8 && len(res.Viol) == 0; rep++ {
 			plus := rep%2 == 0
-			ents, ok := e.enumerate(dfh, plus, []uint32{1, 200, 400, 4096}[rep%4], 100, 0, slots+40, nil)
+			base := e.dirSlots(dfh, slots)
+			ents, ok := e.enumerate(dfh, plus, []uint32{1, 200, 400, 4096}[rep%4], 100, 0, func() int { return base + 40 + int(atomic.LoadInt64(&created)) }, nil)
 			res.Enums++
 			res.Mutated++
 			if ok {
@@ -454,4 +462,13 @@ func limClass(c uint32) string {
 		return "max"
 	}
 	return "big"
+}
+
+// dirSlots: number of entry slots the directory has now (its size in entries).
+func (e *enumSess) dirSlots(dfh []byte, atLeast int) int {
+	ga := doOp(e.s.srv.API, &Op{K: OpGetattr, H: dfh})
+	if ga.Stat == stOK && int(ga.Size/128) > atLeast {
+		return int(ga.Size / 128)
+	}
+	return atLeast
 }
